@@ -16,15 +16,18 @@ pub enum FamId {
     CombinedSecp,
     CombinedEd,
     Var,
+    /// the custom scheme with long signatures (64 + up to ~258 padding bytes, fixed per key)
+    Wide,
 }
 pub const BUILTIN_FAMS: [FamId; 5] = [FamId::K256, FamId::Libsecp, FamId::Ed, FamId::CombinedSecp, FamId::CombinedEd];
-pub const ALL_FAMS: [FamId; 6] = [
+pub const ALL_FAMS: [FamId; 7] = [
     FamId::K256,
     FamId::Libsecp,
     FamId::Ed,
     FamId::CombinedSecp,
     FamId::CombinedEd,
     FamId::Var,
+    FamId::Wide,
 ];
 
 impl FamId {
@@ -40,7 +43,7 @@ impl FamId {
             FamId::Libsecp => Some(KeyType::Libsecp),
             FamId::Ed => Some(KeyType::Ed),
             FamId::CombinedSecp | FamId::CombinedEd => Some(KeyType::Combined),
-            FamId::Var => None,
+            FamId::Var | FamId::Wide => None,
         }
     }
     pub fn name(self) -> &'static str {
@@ -51,12 +54,13 @@ impl FamId {
             FamId::CombinedSecp => "combined-secp",
             FamId::CombinedEd => "combined-ed",
             FamId::Var => "varkey",
+            FamId::Wide => "widekey",
         }
     }
     /// length of signatures of this family, None = variable
     pub fn fixed_sig_len(self) -> Option<usize> {
         match self {
-            FamId::Var => None,
+            FamId::Var | FamId::Wide => None,
             _ => Some(64),
         }
     }
@@ -167,24 +171,39 @@ impl<K: Fam> Fam for FaultKey<K> {
 // p = h[0] % 7 and every padding byte = h[1], h = keccak256(msg).  Verification checks both.
 // The public key is a compressed secp256k1 key stored under "secp256k1".
 
-pub struct VarKey(pub secp256k1::SecretKey);
+pub struct VarKey(pub secp256k1::SecretKey, pub usize);
+
+/// extra padding units (7 bytes each) a key of family `id` with this secret appends
+pub fn var_units(id: FamId, secret: &[u8; 32]) -> usize {
+    match id {
+        FamId::Wide => (secret[31] % 37) as usize,
+        _ => 0,
+    }
+}
 
 #[derive(Clone, Debug)]
 pub struct VarPub(pub secp256k1::PublicKey);
 
-pub fn var_pad(msg: &[u8]) -> Vec<u8> {
+/// padding: every byte = h[1]; length = h[0] % 7 + 7 * units (h = keccak256(msg)); the verifier accepts
+/// any length with the right residue mod 7 (the number of units is the signer's choice)
+pub fn var_pad(msg: &[u8], units: usize) -> Vec<u8> {
     let h = keccak256(msg);
-    vec![h[1]; (h[0] % 7) as usize]
+    vec![h[1]; (h[0] % 7) as usize + 7 * units]
 }
 
-pub fn var_sign(secret: &[u8; 32], msg: &[u8]) -> Vec<u8> {
+pub fn var_sign(secret: &[u8; 32], msg: &[u8], units: usize) -> Vec<u8> {
     let mut sig = crypto::secp_sign(secret, msg).to_vec();
-    sig.extend_from_slice(&var_pad(msg));
+    sig.extend_from_slice(&var_pad(msg, units));
     sig
 }
 
 pub fn var_verify(pk33: &[u8], msg: &[u8], sig: &[u8]) -> crypto::Verdict {
-    if sig.len() < 64 || sig[64..] != var_pad(msg)[..] {
+    if sig.len() < 64 || sig.len() > 64 + 6 + 7 * 40 {
+        return crypto::Verdict::Invalid;
+    }
+    let h = keccak256(msg);
+    let pad = &sig[64..];
+    if pad.len() % 7 != (h[0] % 7) as usize || pad.iter().any(|b| *b != h[1]) {
         return crypto::Verdict::Invalid;
     }
     crypto::secp_verify(pk33, msg, &sig[..64])
@@ -193,7 +212,7 @@ pub fn var_verify(pk33: &[u8], msg: &[u8], sig: &[u8]) -> crypto::Verdict {
 impl EnrKey for VarKey {
     type PublicKey = VarPub;
     fn sign_v4(&self, msg: &[u8]) -> Result<Vec<u8>, SigningError> {
-        Ok(var_sign(&self.0.secret_bytes(), msg))
+        Ok(var_sign(&self.0.secret_bytes(), msg, self.1))
     }
     fn public(&self) -> VarPub {
         VarPub(secp256k1::PublicKey::from_secret_key(secp256k1::SECP256K1, &self.0))
@@ -233,8 +252,8 @@ impl EnrPublicKey for VarPub {
     }
 }
 impl Fam for VarKey {
-    fn make(_: FamId, s: &[u8; 32]) -> Self {
-        VarKey(secp256k1::SecretKey::from_slice(s).expect("valid secret"))
+    fn make(id: FamId, s: &[u8; 32]) -> Self {
+        VarKey(secp256k1::SecretKey::from_slice(s).expect("valid secret"), var_units(id, s))
     }
 }
 
@@ -242,7 +261,7 @@ impl Fam for VarKey {
 /// `alt` selects k256-direct instead of libsecp for secp schemes.
 pub fn ref_sign(id: FamId, secret: &[u8; 32], content: &[u8], alt: bool) -> Vec<u8> {
     match id {
-        FamId::Var => var_sign(secret, content),
+        FamId::Var | FamId::Wide => var_sign(secret, content, var_units(id, secret)),
         _ => match id.scheme() {
             Scheme::Secp => {
                 if alt {
@@ -301,7 +320,10 @@ impl Pool {
         let mut found_y0 = 0;
         let mut plain = 0;
         let mut ctr = 0u32;
-        while (found_x0 < 2 || found_y0 < 2 || plain < 12) && ctr < 4000 {
+        // leading coordinate bytes that collide with SEC1 tags or other magic values
+        let mut want_x: Vec<u8> = vec![0x02, 0x03, 0x04, 0x05, 0x06, 0x07, 0xff, 0x80];
+        let mut want_y: Vec<u8> = vec![0x04, 0x02];
+        while (found_x0 < 2 || found_y0 < 2 || plain < 12 || !want_x.is_empty() || !want_y.is_empty()) && ctr < 12000 {
             let s = keccak256(&[b"enrverif-pool".as_ref(), &ctr.to_be_bytes()].concat());
             ctr += 1;
             if !crypto::secp_secret_valid(&s) {
@@ -309,7 +331,15 @@ impl Pool {
             }
             let pk = crypto::secp_pk_from_secret(&s).unwrap();
             let u = crypto::secp_uncompressed(&pk).unwrap();
-            if u[0] == 0 && found_x0 < 2 {
+            if let Some(i) = want_x.iter().position(|b| *b == u[0]) {
+                want_x.remove(i);
+                secp_edge_coord.push(secp.len());
+                secp.push(s);
+            } else if let Some(i) = want_y.iter().position(|b| *b == u[32]) {
+                want_y.remove(i);
+                secp_edge_coord.push(secp.len());
+                secp.push(s);
+            } else if u[0] == 0 && found_x0 < 2 {
                 found_x0 += 1;
                 secp_edge_coord.push(secp.len());
                 secp.push(s);
@@ -325,6 +355,17 @@ impl Pool {
         let mut ed: Vec<[u8; 32]> = vec![[0u8; 32], [0xffu8; 32], scalar(1)];
         for i in 0..12u32 {
             ed.push(keccak256(&[b"enrverif-pool-ed".as_ref(), &i.to_be_bytes()].concat()));
+        }
+        let mut want_e: Vec<u8> = vec![0x00, 0x04, 0x01, 0xff];
+        let mut j = 100u32;
+        while !want_e.is_empty() && j < 4000 {
+            let s = keccak256(&[b"enrverif-pool-ed".as_ref(), &j.to_be_bytes()].concat());
+            j += 1;
+            let pk = crypto::ed_pk_from_seed(&s);
+            if let Some(i) = want_e.iter().position(|b| *b == pk[0]) {
+                want_e.remove(i);
+                ed.push(s);
+            }
         }
         Pool { secp, ed, secp_edge_coord }
     }
